@@ -470,6 +470,110 @@ def configs(ctx: core.Ctx) -> list[tuple[Model, int]]:
     ]
 
 
+# ------------------------------------------------------------------------------------------------
+# the graph's users: overlays of one identity sharing one Network (what ipv8_service builds)
+# ------------------------------------------------------------------------------------------------
+
+OVERLAY_EVENTS = ["load A", "load B", "unload A", "unload B", "self A", "self B", "walk A", "walk B"]
+
+
+def overlay_history(seed: int, hist: tuple) -> list:
+    """
+    Two overlays (different community ids) of one identity on one node share the node's Network, as every deployment's
+    overlays do; a second node F is an ordinary peer.  Events: load / unload an overlay, "self X" = a datagram signed with
+    our own key reaches overlay X (X walks to its own address), "walk X" = F walks to X.  After every event: our own
+    identity - blacklisted by every Community for as long as one is loaded - is a verified peer in no lookup.
+    """
+    from ipv8.community import Community, CommunitySettings  # noqa: PLC0415
+
+    from .. import simnet  # noqa: PLC0415
+
+    class OA(Community):
+        community_id = b"c12-shared-network-A"
+
+    class OB(Community):
+        community_id = b"c12-shared-network-B"
+
+    w = simnet.World(("c12-overlays", seed, hist))
+    viol = []
+    try:
+        ks = fixtures.rotate(seed, 2)
+        node, friend = w.add_node("N", ks[0]), w.add_node("F", ks[1])
+        fo = {"A": friend.add_overlay(OA), "B": friend.add_overlay(OB)}
+        mine: dict = {"A": None, "B": None}
+        own = node.my_peer
+        for k, ev in enumerate(hist):
+            op, which = OVERLAY_EVENTS[ev].split()
+            cls = OA if which == "A" else OB
+            if op == "load" and mine[which] is None:
+                mine[which] = node.add_overlay(cls)
+            elif op == "unload" and mine[which] is not None:
+                o, mine[which] = mine[which], None
+                w.drive(node.run(o.unload))
+                if o in node.overlays:
+                    node.overlays.remove(o)
+            elif op == "self" and mine[which] is not None:
+                node.run(mine[which].walk_to, node.address)
+            elif op == "walk":
+                friend.run(fo[which].walk_to, node.address)
+            w.flush()
+            if not any(mine.values()):
+                continue
+            net = node.network
+            key_bin = own.public_key.key_to_bin()
+            found = []
+            if any(p.public_key.key_to_bin() == key_bin for p in net.verified_peers):
+                found.append("verified_peers")
+            if net.get_verified_by_public_key_bin(key_bin) is not None:
+                found.append("get_verified_by_public_key_bin")
+            by_addr = net.get_verified_by_address(node.address)
+            if by_addr is not None and by_addr.public_key.key_to_bin() == key_bin:
+                found.append("get_verified_by_address")
+            for name, o in mine.items():
+                if o is not None and any(p.public_key.key_to_bin() == key_bin for p in o.get_peers()):
+                    found.append(f"get_peers of overlay {name}")
+            if found:
+                viol.append(("own-identity-verified|shared-network",
+                             f"overlays of one identity on one Network, history {[OVERLAY_EVENTS[e] for e in hist[:k + 1]]}: "
+                             f"our own (blacklisted) identity is a verified peer according to {found}"))
+                break
+        return viol
+    finally:
+        w.close()
+
+
+def _overlay_work(chunk: list) -> list:
+    return [(h, overlay_history(_OV_SEED, tuple(h))) for h in chunk]
+
+
+_OV_SEED = 0
+
+
+def overlay_histories(depth: int) -> list:
+    import itertools  # noqa: PLC0415
+    out = []
+    for n in range(1, depth + 1):
+        for h in itertools.product(range(len(OVERLAY_EVENTS)), repeat=n):
+            # canonical: starts with a load, and no event that is a no-op by construction
+            loaded = {"A": False, "B": False}
+            ok = True
+            for e in h:
+                op, which = OVERLAY_EVENTS[e].split()
+                if op == "load":
+                    ok &= not loaded[which]
+                    loaded[which] = True
+                elif op == "unload":
+                    ok &= loaded[which]
+                    loaded[which] = False
+                elif op == "self":
+                    ok &= loaded[which]
+                else:
+                    ok &= loaded[which]
+            if ok and OVERLAY_EVENTS[h[-1]].split()[0] in ("self", "walk"):
+                out.append(h)
+    return out
+
+
 def run(ctx: core.Ctx) -> core.Report:
     total_states = total_trans = 0
     runs, violations, samples = [], [], []
@@ -488,6 +592,16 @@ def run(ctx: core.Ctx) -> core.Report:
         for v in r["violations"]:
             v.replay = {"world": model.params(), "history": v.replay["history"]}
             violations.append(v)
+    global _OV_SEED
+    _OV_SEED = ctx.seed
+    hists = overlay_histories(6 if ctx.thorough else 5)
+    for h, v in sorted(core.pmap(_overlay_work, hists, ctx.jobs, chunk=16), key=lambda r: (len(r[0]), r[0])):
+        total_trans += len(h)
+        for key, what in v:
+            if not any(x.key == key for x in violations):
+                violations.append(core.Violation(key, what, {"overlay_history": list(h), "seed": ctx.seed}))
+    runs.append({"world": "two overlays of one identity sharing a Network", "alphabet_size": len(OVERLAY_EVENTS),
+                 "histories": len(hists)})
     cov = {
         "states": total_states, "transitions": total_trans, "traces_validated_against_impl": total_trans,
         "samples": samples, "exhaustive": exhaustive, "distinct_outcomes": outcomes, "runs": runs,
@@ -503,6 +617,8 @@ def run(ctx: core.Ctx) -> core.Report:
 
 
 def replay(ctx: core.Ctx, data: dict) -> list:
+    if "overlay_history" in data:
+        return [core.Violation(k, what) for k, what in overlay_history(data["seed"], tuple(data["overlay_history"]))]
     w = data["world"]
     m = Model(w["peers"], w["addresses"], w["services"], w["seed"], w["blacklisted_addresses"], w["blacklisted_peers"],
               w.get("observer"), w.get("forms", False))
